@@ -449,6 +449,12 @@ func (s *Storm) fire(r *rand.Rand, c trace.Call, fail, boom bool, holdUs int64, 
 		d.healthy = false
 		s.k.Count("requests_filling_only_the_second_slot", 1)
 	}
+	if c.Method == trace.MPoolEM && keys != nil && !fail && !boom && len(c.Data) == 2 && r.Intn(8) == 0 {
+		// ... and one that fills neither slot: it runs the rules on nothing and hands its instance back like any other
+		c.Data = map[string]interface{}{"\x00no-slots": true}
+		d.healthy = false
+		s.k.Count("requests_filling_no_slot", 1)
+	}
 	if c.Method != trace.MPoolEM {
 		for _, kx := range keys {
 			c.Data[kx] = &Key{Id: id}
@@ -762,6 +768,10 @@ func (s *Storm) Run(clients, perClient int, faults bool) {
 					s.k.Count("requests_ending_in_a_caller_panic", 1)
 				}
 				keys := []string{} // non-nil: a request of the storm proper (the gated phases pass nil)
+				if rr.Intn(6) == 0 {
+					// a name with a blank at its edge is another name than k1: no rule can read it, and it is gone afterwards
+					keys = append(keys, "k1 ")
+				}
 				for _, kx := range []string{"k1", "k2", "k3", "k4"} {
 					if rr.Intn(3) == 0 {
 						keys = append(keys, kx)
